@@ -183,10 +183,24 @@ let outcome_s = function
 (* run: the input is "case \t impl line" (history-driven: the schedule is the
    implementation's); the model replays the global log through [step] and
    prints what the implementation must have printed. *)
-let run line =
+(* e2e (real-macro binary, plain `bench`): the input generator is divan's own `|| ()`, which
+   logs nothing.  Its n calls per sample happen on each thread before that thread's first wait;
+   they are put back into the log right before the thread's `a1` (a thread-local step can be
+   placed anywhere between its neighbours of the same thread), so that the same replay and
+   the same specification apply.  No sample's allocation info is printed by that binary. *)
+let synth_gens (c : case) (ilog : string) : string =
+  String.concat " " (List.concat_map (fun tok ->
+    match String.index_opt tok '.' with
+    | Some i when String.sub tok (i + 1) (String.length tok - i - 1) = "a1" ->
+      List.init c.n (fun _ -> String.sub tok 0 i ^ ".g") @ [tok]
+    | _ -> [tok]) (List.filter (fun x -> x <> "") (toks ilog)))
+
+let run_gen ~e2e line =
   let (cs, impl) = split_sb line in
   let c = parse_case cs in
+  let c = if e2e then { c with test = true } else c in
   let (_, ilog, _) = split_impl impl in
+  let ilog = if e2e then synth_gens c ilog else ilog in
   let (log, toks_) = parse_log ilog in
   let c = with_sizes c toks_ in
   let cfg = config_of c in
@@ -195,7 +209,8 @@ let run line =
   let ((acc, st), pend) = replay fuel cfg s0 [] log O in
   let acc = int_of_nat acc in
   let exp = expected cfg in
-  let accepted = String.concat " " (List.filteri (fun i _ -> i < acc) toks_) in
+  let is_synth tok = e2e && String.length tok >= 2 && String.sub tok (String.length tok - 2) 2 = ".g" in
+  let accepted = String.concat " " (List.filter (fun t -> not (is_synth t)) (List.filteri (fun i _ -> i < acc) toks_)) in
   let logpart =
     if acc < List.length toks_ then accepted ^ (if acc > 0 then " " else "") ^ Printf.sprintf "REJECT@%d" acc
     else accepted in
@@ -214,13 +229,17 @@ let run line =
   let allocs = if exp = None then model_allocs c cfg else "" in
   Printf.sprintf "%s | %s | %s" outcome logpart allocs
 
-let run_sb line =
+let run = run_gen ~e2e:false
+
+let run_sb_gen ~e2e line =
   let (cs, impl) = split_sb line in
   let c = parse_case cs in
+  let c = if e2e then { c with test = true } else c in
   let cfg = config_of c in
   match (try Some (split_impl impl) with Failure _ -> None) with
   | None -> verdict false ("outcome:" ^ impl)
   | Some (o, ilog, allocs) ->
+    let ilog = if e2e then synth_gens c ilog else ilog in
     let (log, toks_) = parse_log ilog in
     let c = with_sizes c toks_ in
     let cfg = config_of c in
@@ -232,11 +251,15 @@ let run_sb line =
     else if (not faulty) && allocs <> model_allocs c cfg then verdict false "foreign-or-missing-allocations"
     else "true"
 
+let run_sb = run_sb_gen ~e2e:false
+
 let dispatch mode line =
   match mode with
   | "bfs" -> bfs line
   | "run" -> run line
   | "run.sb" -> run_sb line
+  | "e2e" -> run_gen ~e2e:true line
+  | "e2e.sb" -> run_sb_gen ~e2e:true line
   | "bfs.sb" -> let (_, i) = split_sb line in verdict (String.length i > 0) "empty"
   | _ -> failwith ("unknown mode " ^ mode)
 
